@@ -28,6 +28,14 @@ run_demo() { # $1 = tree
 }
 (cd "$D/repo" && patch -p1 -s < "$SRC/patch.diff") || { echo "RESULT $NAME patch-failed"; exit 3; }
 (cd "$D/repo" && go build ./... ) >"$LOG.build" 2>&1 || { echo "RESULT $NAME build-failed"; exit 3; }
+if [ -n "${SEED_RECHECK:-}" ]; then # re-check mode: the change was confirmed before; only see that the checks still report it
+  RES=""
+  for CK in $CHECKS; do
+    OUT=$(VERIF_OUT_DIR="$D/out" VERIF_REPO="$D/repo" /verif/scripts/check.sh "$CK" quick 2>&1 | grep -E "^(VIOLATION|KNOWN|INCONCL)|sig=" | cut -c1-200)
+    if echo "$OUT" | grep -q "^VIOLATION property=$CK"; then RES="$RES $CK:caught"; elif echo "$OUT" | grep -q "^INCONCLUSIVE"; then RES="$RES $CK:INCONCLUSIVE"; else RES="$RES $CK:MISSED"; fi
+  done
+  echo "RECHECK $NAME$RES"; exit 0
+fi
 (cd "$D/repo" && go test -vet=off -count=1 ./... ) >"$LOG.tests" 2>&1 && T=pass || T=FAIL
 if [ $T = FAIL ]; then # the pinned suite has wall-clock flakes (TestCreateUpdateFetch, compat tests at hour boundaries): one retry
   sleep 11; (cd "$D/repo" && go test -vet=off -count=1 ./... ) >"$LOG.tests" 2>&1 && T=pass || T=FAIL
